@@ -39,6 +39,10 @@ class Inst:
     fields: List[Any] = field(default_factory=list)
     #: the SDK object built from it (filled by the builder)
     obj: Any = None
+    #: indices (into ``fields``) of constructor arguments that are NOT PASSED when the object is built, and of arguments
+    #: passed as ``None``; ``fields[i]`` is then the value the property must hold afterwards (the declared default)
+    omit: List[int] = field(default_factory=list)
+    nones: List[int] = field(default_factory=list)
 
 
 def _ref_kind(mm: M.MM, name: str) -> str:
@@ -146,7 +150,12 @@ def jsonable(v: Any) -> Any:
     if isinstance(v, list):
         return [jsonable(x) for x in v]
     if isinstance(v, Inst):
-        return {"c": v.cls, "v": [jsonable(x) for x in v.fields]}
+        d = {"c": v.cls, "v": [jsonable(x) for x in v.fields]}
+        if v.omit:
+            d["omit"] = list(v.omit)
+        if v.nones:
+            d["nones"] = list(v.nones)
+        return d
     raise TypeError(repr(v))
 
 
@@ -166,7 +175,7 @@ def from_jsonable(d: Any) -> Any:
     if "e" in d:
         return EnumVal(d["e"], d["l"])
     if "c" in d:
-        return Inst(d["c"], [from_jsonable(x) for x in d["v"]])
+        return Inst(d["c"], [from_jsonable(x) for x in d["v"]], omit=list(d.get("omit", [])), nones=list(d.get("nones", [])))
     raise TypeError(repr(d))
 
 
